@@ -181,6 +181,39 @@ class FunctionVerifier:
                 raise VError(f'{fq}: {o.kind} escaped the function body')
         return ex.obligations, info
 
+    def verify_lemma(self, name):
+        """a lemma over specification functions / contracts: fresh variables, assumptions, goals"""
+        ex = self.ex
+        lm = LEMMAS[name]
+
+        class _L:
+            qual = 'lemma.' + name
+            node = None
+            module = 'message'
+            cls = None
+            kind = 'lemma'
+        ex.func, ex.contract, ex.module = _L, None, 'message'
+        ex.obligations = []
+        p = Path()
+        self.lib.init_path(ex, p, None)
+        for n, t in lm.vars.items():
+            p.env[n] = fresh(t, n)
+        ex.entry = p.fork()
+        ctx = ex.ctx(p)
+        for src in lm.reveal:
+            ex.spec.ev(ast.parse(f'reveal({src})', mode='eval').body, ctx)
+        for cl in lm.assumes:
+            p.add(ex.spec.bool(cl.ast, ctx))
+        info = {'paths_normal': 1, 'paths_raise': 0, 'vacuous': not p.feasible()}
+        for cl in lm.shows:
+            ob = Obligation(f'{name}/{cl.name}', cl.props, list(p.pc), None, 'lemma.' + name, [], None, 'lemma')
+            goal = ex.spec.bool(cl.ast, ctx)
+            ob.pc = list(p.pc)
+            ob.goal = goal
+            ob.env = dict(p.env)
+            ex.obligations.append(ob)
+        return ex.obligations, info
+
     def raise_obligation(self, o, c, fshort, entry):
         ex = self.ex
         exc = o.v
